@@ -156,6 +156,83 @@ let fmt_path (h : hp) (p : n edge list) : string =
   Buffer.add_string b (Printf.sprintf " len %d" (List.length p + 1));
   Buffer.contents b
 
+(* ---------- containers ---------- *)
+type gr = (n * nat) list
+
+let split_at_order (st : string array) : string array * n list =
+  (* tokens after "@" are the observed iteration order (keys) *)
+  let l = Array.to_list st in
+  let rec go acc = function
+    | [] -> (List.rev acc, [])
+    | "@" :: r -> (List.rev acc, List.map (fun x -> n_of_int (ios x)) r)
+    | x :: r -> go (x :: acc) r in
+  let (a, o) = go [] l in (Array.of_list a, o)
+
+let order_str (o : n list) : string =
+  "ord [" ^ String.concat " " (List.map (fun k -> string_of_int (int_of_n k)) o) ^ "]"
+
+let keys_of (h : hp) (l : nat list) : string = String.concat " " (List.map (key_str h) l)
+
+let graph_snap (directed : bool) (h : hp) (g : gr) : string =
+  let ms = List.sort (fun (a, _) (b, _) -> compare (int_of_n a) (int_of_n b)) g in
+  let b = Buffer.create 128 in
+  List.iter (fun (k, u) ->
+    let v = match valof h u with Some v -> int_of_z v | None -> 0 in
+    if directed then begin
+      Buffer.add_string b (Printf.sprintf "[%d %d out" (int_of_n k) v);
+      List.iter (fun (t, e) -> Buffer.add_string b (fmt_edge h u t e)) (h.outs u);
+      Buffer.add_string b " in";
+      List.iter (fun (s, e) -> Buffer.add_string b (fmt_edge h s u e)) (h.ins u);
+      Buffer.add_string b "]"
+    end else begin
+      Buffer.add_string b (Printf.sprintf "[%d %d adj" (int_of_n k) v);
+      List.iter (fun (t, e) -> Buffer.add_string b (fmt_edge h u t e)) (adj_u h u);
+      Buffer.add_string b "]"
+    end) ms;
+  Buffer.contents b
+
+(* value trees from the token form  [ [ i1 i5 ] n t s"x" { .. } d1.5 ] *)
+let parse_value (toks : string list) : value =
+  let rec one = function
+    | "[" :: r -> let (l, r') = many r in (VSeq l, r')
+    | "{" :: r -> let (l, r') = manym r in (VMap l, r')
+    | "n" :: r -> (VNull, r)
+    | "t" :: r -> (VBool true, r)
+    | "f" :: r -> (VBool false, r)
+    | t :: r ->
+        if String.length t > 0 && t.[0] = 'i' then
+          (match int_of_string_opt (String.sub t 1 (String.length t - 1)) with
+           | Some i -> (VInt (z_of_int i), r)
+           | None -> (VOther, r))      (* does not fit an OCaml int: out of range for u64/i64 too *)
+        else (VOther, r)
+    | [] -> (VNull, [])
+  and many = function
+    | "]" :: r -> ([], r)
+    | [] -> ([], [])
+    | l -> let (v, r) = one l in let (vs, r') = many r in (v :: vs, r')
+  and manym = function
+    | "}" :: r -> ([], r)
+    | [] -> ([], [])
+    | l -> let (k, r) = one l in let (v, r2) = one r in let (vs, r') = manym r2 in ((k, v) :: vs, r') in
+  fst (one toks)
+
+let dec_u64 (v : value) : n option =
+  match v with VInt z -> let i = int_of_z z in if i >= 0 then Some (n_of_int i) else None | _ -> None
+let dec_i64 (v : value) : z option = match v with VInt z -> Some z | _ -> None
+
+let dot_tokens (h : hp) (l : n dotstmt list) (ga : int) (na : int) (ea : int) : string =
+  let tok = function
+    | GraphAttr i -> if int_of_nat i = 0 then "G:rankdir=\"LR\"" else "G:label=\"g\""
+    | NodeStmt (u, a) ->
+        if not a then "N:" ^ key_str h u
+        else if na = 1 then Printf.sprintf "N:%s:[label=\"n%s\"]" (key_str h u) (key_str h u)
+        else Printf.sprintf "N:%s:[label=\"n%s\"][v=\"%d\"]" (key_str h u) (key_str h u)
+               (match valof h u with Some v -> int_of_z v | None -> 0)
+    | EdgeStmt (u, v, e, a) ->
+        if not a then Printf.sprintf "E:%s>%s" (key_str h u) (key_str h v)
+        else Printf.sprintf "E:%s>%s:[w=\"%d\"]" (key_str h u) (key_str h v) (int_of_n e) in
+  String.concat " " (List.map tok l)
+
 let cmp_name (c : comparison) : string = match c with Lt -> "Less" | Eq -> "Equal" | Gt -> "Greater"
 
 let run_case (oc : out_channel) (c : case) : unit =
@@ -165,11 +242,75 @@ let run_case (oc : out_channel) (c : case) : unit =
   let h : hp ref = ref empty_heap in
   let apply (o : (n, z, n) op) : string =
     let (h1, r) = step !h o in h := h1; outcome_str r in
+  let graphs : gr array ref = ref [||] in
+  let getg i = (!graphs).(i) in
+  let setg i g = (!graphs).(i) <- g in
   let script : (nat * (n, z, n) op list) list ref = ref [] in
   let take_script () = let s = List.rev !script in script := []; s in
   List.iteri (fun si st ->
+    let st = if String.length st.(0) > 5 && String.sub st.(0) 0 5 = "only:" then Array.sub st 1 (Array.length st - 1) else st in
+    let (st, order) = split_at_order st in
     let obs =
       match st.(0) with
+      | "gnew" -> graphs := Array.append !graphs [| [] |]; "ok"
+      | "gins" ->
+          let gi = ios st.(1) in
+          let (g', b) = g_insert keqb !h (getg gi) (nat_of_int (ios st.(2))) in
+          setg gi g'; Printf.sprintf "ok %d" (b2i b)
+      | "gget" ->
+          (match g_get keqb (getg (ios st.(1))) (n_of_int (ios st.(2))) with
+           | Some u -> "get " ^ key_str !h u | None -> "get -")
+      | "gcon" ->
+          let g = getg (ios st.(1)) in
+          (match g_get keqb g (n_of_int (ios st.(2))), g_get keqb g (n_of_int (ios st.(3))) with
+           | Some a, Some b -> apply (OConnect (a, b, n_of_int (ios st.(4))))
+           | _, _ -> "panic")
+      | "gidx" ->
+          (match g_get keqb (getg (ios st.(1))) (n_of_int (ios st.(2))) with
+           | Some u -> "idx " ^ key_str !h u | None -> "panic")
+      | "ghas" -> Printf.sprintf "has %d" (b2i (g_contains keqb (getg (ios st.(1))) (n_of_int (ios st.(2)))))
+      | "glen" -> let g = getg (ios st.(1)) in Printf.sprintf "len %d emp %d" (int_of_nat (g_len g)) (b2i (g_is_empty g))
+      | "grem" ->
+          let gi = ios st.(1) in
+          let (g', r) = g_remove keqb (getg gi) (n_of_int (ios st.(2))) in
+          setg gi g';
+          (match r with Some u -> "some " ^ key_str !h u | None -> "none")
+      | "gvec" | "giter" -> Printf.sprintf "%s res %s" (order_str order) (keys_of !h (g_iter keqb (getg (ios st.(1))) order))
+      | "gorph" -> Printf.sprintf "%s res %s" (order_str order) (keys_of !h (g_orphans keqb !h (getg (ios st.(1))) order))
+      | "groots" -> Printf.sprintf "%s res %s" (order_str order) (keys_of !h (g_roots keqb !h (getg (ios st.(1))) order))
+      | "gleaves" -> Printf.sprintf "%s res %s" (order_str order) (keys_of !h (g_leaves keqb !h (getg (ios st.(1))) order))
+      | "gscc" ->
+          (match scc keqb big_fuel !h (getg (ios st.(1))) order with
+           | Some comps ->
+               Printf.sprintf "%s comps%s" (order_str order)
+                 (String.concat "" (List.map (fun c -> " [" ^ keys_of !h c ^ "]") comps))
+           | None -> "fuel")
+      | "gdot" ->
+          Printf.sprintf "%s dot %s" (order_str order)
+            (dot_tokens !h (g_to_dot keqb directed !h (getg (ios st.(1))) order) 0 0 0)
+      | "gdota" ->
+          let ga = ios st.(2) and na = ios st.(3) and ea = ios st.(4) in
+          let nattr u = (na = 1) || (na = 2 && (match keyof !h u with Some k -> int_of_n k mod 2 = 0 | None -> false)) in
+          let eattr _ _ e = (ea = 1) || (ea = 2 && int_of_n e mod 2 = 0) in
+          Printf.sprintf "%s dot %s" (order_str order)
+            (dot_tokens !h (g_to_dot_attr keqb directed !h (getg (ios st.(1))) order
+                              (nat_of_int (if ga = 1 then 2 else 0)) nattr eattr) ga na ea)
+      | "gser" ->
+          let (ns, es) = decompose keqb !h (getg (ios st.(1))) order in
+          Printf.sprintf "%s doc [%s] [%s]" (order_str order)
+            (String.concat "" (List.map (fun (k, v) -> Printf.sprintf "[%d %d]" (int_of_n k) (int_of_z v)) ns))
+            (String.concat "" (List.map (fun ((a, b), e) -> Printf.sprintf "[%d %d %d]" (int_of_n a) (int_of_n b) (int_of_n e)) es))
+      | "grt" ->
+          let (ns, es) = decompose keqb !h (getg (ios st.(1))) order in
+          (match rebuild keqb ns es with
+           | DeOk (h2, g2) -> Printf.sprintf "%s de ok %s" (order_str order) (graph_snap directed h2 g2)
+           | DeMissing _ -> Printf.sprintf "%s de err" (order_str order))
+      | "gdebytes" -> "exercise-only"
+      | "gde" ->
+          let toks = Array.to_list (Array.sub st 2 (Array.length st - 2)) in
+          (match deserialize keqb dec_u64 dec_i64 dec_u64 (parse_value toks) with
+           | DOk (h2, g2) -> "de ok " ^ graph_snap directed h2 g2
+           | DErr -> "de err")
       | "new" -> apply (ONew (n_of_int (ios st.(1)), z_of_int (ios st.(2))))
       | "con" -> apply (OConnect (nat_of_int (ios st.(1)), nat_of_int (ios st.(2)), n_of_int (ios st.(3))))
       | "try" -> apply (OTryConnect (nat_of_int (ios st.(1)), nat_of_int (ios st.(2)), n_of_int (ios st.(3))))
